@@ -16,8 +16,10 @@ the reader model `Read.readAs` of C02 / C17), index level: SaModel/Read/Access.l
   bulk_eq_map           the bulk read is the list of the item reads; it fails iff an item fails, with the FIRST failing item's error
   get_eq_iter           `get(i)` = the `i`-th item of a fresh iteration = `iter().nth(i)`
   iter_yields_*         no fuel: `n` calls of `next` on any reachable iterator, for every `n`; never more than `len` items
+  ctor_order            `Deserializer::new` in the order of the Rust code succeeds iff counts agree, all views have one length and
+                        the root reader can be built
   from_arrow_is_new     `from_arrow` / `from_record_batch` / `from_arrow2`: count check, conversions, then `Deserializer::new` —
-                        every theorem above applies to what they return
+                        every theorem above applies to what they return;  ctors_refuse_count_mismatch
 -/
 namespace SaModel.Props.C13
 open SaModel SaModel.Access SaModel.AccessVal SaModel.Lemmas
@@ -441,6 +443,29 @@ theorem from_arrow_is_new (core : Backend.Core OB Items Deser Out) (hcore : core
           exact ⟨hc, fields, arrs, rfl, rfl, h⟩
     · have hb : (afs.length != as.length) = true := by simp [hc]
       simp [hb, Backend.countMismatch, fail] at h
+/-- **ctors_refuse_count_mismatch.**  A different number of fields and arrays is refused — an error, not a panic — by all
+four constructors: by `from_marrow` through the first statement of `Deserializer::new`, by `from_arrow` /
+`from_record_batch` / `from_arrow2` through their own check, before any conversion (`Props/C19.reader_count_mismatch_refused`
+for an abstract core; here for the constructor of this model). -/
+theorem ctors_refuse_count_mismatch (core : Backend.Core OB Items Deser Out) (hcore : core.deserializerNew = Deser.new)
+    (cv : Backend.Conv AF AA) :
+    (∀ (fields : List Field) (arrs : List Arr), fields.length ≠ arrs.length →
+      (Backend.Deserializer.fromMarrow core fields arrs).isErr = true) ∧
+    (∀ (afs : List AF) (as : List AA), afs.length ≠ as.length →
+      (Backend.Deserializer.fromArrow core cv afs as).isErr = true ∧
+      (Backend.Deserializer.fromArrow2 core cv afs as).isErr = true ∧
+      ∀ md, (Backend.Deserializer.fromRecordBatch core cv { fields := afs, schemaMetadata := md, columns := as }).isErr = true) := by
+  constructor
+  · intro fields arrs h
+    have hb : (fields.length != arrs.length) = true := by simp [h]
+    simp only [Backend.Deserializer.fromMarrow, hcore, Deser.new, hb, if_true]
+    rfl
+  · intro afs as h
+    have hb : (afs.length != as.length) = true := by simp [h]
+    have h1 : (Backend.Deserializer.fromArrow core cv afs as).isErr = true := by
+      simp only [Backend.Deserializer.fromArrow, hb, if_true]; rfl
+    refine ⟨h1, ?_, fun _ => h1⟩
+    simp only [Backend.Deserializer.fromArrow2, hb, if_true]; rfl
 end
 
 /-! ### non-vacuity -/
